@@ -89,11 +89,17 @@ def spawn(steps, timeout=600):
     env = dict(os.environ)
     env.pop(WVAR, None)
     env.pop(SVAR, None)
-    p = subprocess.run([sys.executable, "-u", os.path.abspath(__file__), "--worker"], input=json.dumps({"steps": steps}),
-                       capture_output=True, text=True, timeout=timeout, env=env)
-    for line in p.stdout.splitlines():
-        if line.startswith("C30WORKER"):
-            return json.loads(line[len("C30WORKER"):])
+    for attempt in (0, 1):  # one retry: /repo may be in the middle of a checkout by a concurrent job (ImportError at start-up)
+        p = subprocess.run([sys.executable, "-u", os.path.abspath(__file__), "--worker"], input=json.dumps({"steps": steps}),
+                           capture_output=True, text=True, timeout=timeout, env=env)
+        for line in p.stdout.splitlines():
+            if line.startswith("C30WORKER"):
+                return json.loads(line[len("C30WORKER"):])
+        if attempt == 0 and "ImportError" in p.stderr:
+            import time
+            time.sleep(10)
+            continue
+        break
     raise RuntimeError(f"C30 worker failed rc={p.returncode}: {p.stdout[-500:]} {p.stderr[-1500:]}")
 
 
